@@ -121,6 +121,9 @@ def run(ctx):
     # the emulated rename is a sequence of exchanges whose outcome must equal the server's state (no overwrite, no loss)
     from .c14 import rename_rules
     rename_rules(ctx, R)
+    # a new connection starts in step: nothing of the previous one is left in the buffer or the capability table (A8 of C10)
+    from .c10 import a8
+    a8(ctx, R)
 
     # ---- K4 ---------------------------------------------------------------------
     ctx.rule("K4", "line reader: every raise that interprets a line is dominated by the removal of that line from the buffer")
